@@ -168,7 +168,11 @@ def run(ctx: Ctx):
     if not okc:
         ctx.fail(cons, f.loc(), "a CEA with a result other than 2001 does not close the connection "
                  "with DISCONNECT_REASON_CER_REJECTED")
-    r = g.reach([g.entry], blocked=flags + closes)
+    # (for a connection whose exchange is pending; in any other state the CEA is ignored)
+    pending = g.guard_edges(lambda t: at.label_when(
+        t, lambda a: False if (a.subject == f"{conn}.state" and a.op == "=="
+                               and a.value == P("PEER_CONNECTED")) else None))
+    r = g.reach([g.entry], blocked=flags + closes, blocked_edges=pending)
     if g.exit in r:
         ctx.fail(cons + "#fallthrough", f.loc(), "receive_cea can return without either making the "
                  "connection ready or closing it")
@@ -285,7 +289,11 @@ def _receive_cer(ctx: Ctx, model, nc, P, K):
     # one send per path
     cons = "receive_cer:one-answer-per-path"
     ctx.inst(cons)
-    if g.exit in g.reach([g.entry], normal_blocked=sends):
+    # (for a connection whose exchange is pending; in any other state the CER is ignored)
+    pending = g.guard_edges(lambda t: at.label_when(
+        t, lambda a: False if (a.subject == f"{conn}.state" and a.op == "=="
+                               and a.value == P("PEER_CONNECTED")) else None))
+    if g.exit in g.reach([g.entry], normal_blocked=sends, blocked_edges=pending):
         ctx.fail(cons, f.loc(), "receive_cer can return without answering the CER")
     for s in sends:
         if any(t in g.reach([s], include_starts=False) for t in sends):
